@@ -35,7 +35,7 @@ Proof.
     destruct (a_view a) eqn:E; [specialize (Hv eq_refl)|specialize (Ho eq_refl)]; nia.
   - unfold arr_resize. destruct (a_view a) eqn:E; simpl.
     + split; [assumption|]. split; [pose proof (len_nonneg (a_mem a)); lia|]. intros; discriminate.
-    + split; [assumption|]. rewrite len_nil. split; [lia|]. intros; lia.
+    + split; [assumption|]. unfold len; simpl. split; [lia|]. intros; lia.
 Qed.
 
 Lemma sink_new_buffer_content junk app a : arr_wf a ->
@@ -87,7 +87,7 @@ Proof.
   intros Hw Hg. unfold sink_write.
   destruct (len d =? 0) eqn:Hn.
   - assert (d = []) by (apply len_zero_nil; lia). subst d. simpl.
-    rewrite app_nil_r. rewrite len_nil. repeat split; auto; try lia. intros; lia.
+    rewrite app_nil_r. change (len (@nil Z)) with 0. repeat split; auto; try lia.
   - assert (Hpos : 0 < len d) by (pose proof (len_nonneg d); lia).
     unfold sink_wf, growable in *. destruct (k_dev s) as [a | nm f] eqn:Hd.
     + destruct Hw as (He & Hb & Ho). specialize (Ho Hg).
@@ -108,14 +108,14 @@ Proof.
       split.
       { split; [assumption|]. rewrite !len_app, len_take, len_drop, Hlen. split; [lia|].
         intros _. rewrite Hc'. lia. }
-      split; [assumption|].
+      split; [first [assumption|reflexivity]|].
       split.
       { rewrite Hpre.
         assert (Hl : len (take (k_bb s) (a_mem a)) = k_bb s) by (apply len_take_le; lia).
         rewrite app_assoc.
         rewrite take_app_le by (rewrite len_app, Hl; lia).
         apply take_all. rewrite len_app, Hl. lia. }
-      repeat split; try reflexivity. intros a0 _. reflexivity.
+      repeat split; try reflexivity.
     + simpl. rewrite Z.eqb_refl. simpl. unfold sink_content, sink_unit; simpl. rewrite Hd.
       rewrite take_all by lia.
       repeat split; auto. intros a0 Habs; discriminate.
@@ -170,7 +170,7 @@ Proof.
     + destruct Hw as (He & Hb & Ho).
       rewrite len_take_le by lia.
       destruct (k_bb s mod a_esz a =? 0) eqn:E; simpl; rewrite ?Hd; simpl; rewrite ?Hd; auto 10.
-    + rewrite Z.mod_1_r. simpl. rewrite Hd. auto 10.
+    + rewrite Z.mod_1_r. simpl. rewrite ?Hd. auto 10.
 Qed.
 
 Theorem sink_run_refines junk ops : forall s,
@@ -208,6 +208,26 @@ Qed.
 Lemma forallb_writes chunks : forallb fault_free (map (fun d => SWrite d None) chunks) = true.
 Proof. induction chunks; simpl; auto. Qed.
 
+(* a buffer sink stays a buffer sink *)
+Definition is_buf (s : sink) : Prop := exists b, k_dev s = DBuf b.
+
+Lemma sink_step_is_buf junk s op : is_buf s -> is_buf (fst (sink_step junk s op)).
+Proof.
+  intros [b Hb]. unfold is_buf.
+  destruct op as [d flt|al flt|ff]; unfold sink_step, sink_align, sink_write, sink_complete; rewrite Hb.
+  - destruct (len d =? 0); simpl; [eauto|]. destruct (negb _); simpl; [eauto|]. destruct (put _ _ _); simpl; eauto.
+  - destruct (len _ =? 0); simpl; [eauto|]. destruct (negb _); simpl; [eauto|]. destruct (put _ _ _); simpl; eauto.
+  - destruct (negb _); simpl; eauto.
+Qed.
+
+Lemma sink_run_is_buf junk ops : forall s, is_buf s -> is_buf (fst (sink_run junk s ops)).
+Proof.
+  induction ops as [|op ops IH]; intros s Hb; simpl; [assumption|].
+  pose proof (sink_step_is_buf junk s op Hb) as H1.
+  destruct (sink_step junk s op) as [s1 o1]. simpl in H1. specialize (IH s1 H1).
+  destruct (sink_run junk s1 ops) as [s2 os]. simpl in *. assumption.
+Qed.
+
 Theorem sink_chunking junk s chunks :
   sink_wf s -> growable s ->
   let r := sink_run junk s (map (fun d => SWrite d None) chunks) in
@@ -241,22 +261,11 @@ Proof.
   unfold sink_content. unfold sink_wf, growable in *.
   destruct (k_dev (fst (sink_run junk (sink_new_buffer junk app a) (map (fun d : list Z => SWrite d None) chunks)))) as [b|nm f] eqn:E.
   - rewrite len_take_le; [reflexivity|]. lia.
-  - exfalso. (* a buffer sink stays a buffer sink *)
-    clear - E. revert E. generalize (sink_new_buffer junk app a) as s0.
-    assert (Hs : forall s0, (exists b, k_dev s0 = DBuf b) -> forall ops, exists b, k_dev (fst (sink_run junk s0 ops)) = DBuf b).
-    { intros s0 Hb ops. revert s0 Hb. induction ops as [|op ops IH]; intros s0 Hb; simpl; [assumption|].
-      assert (Hb1 : exists b, k_dev (fst (sink_step junk s0 op)) = DBuf b).
-      { destruct Hb as [b Hb]. destruct op as [d flt|al flt|ff]; unfold sink_step, sink_align, sink_write, sink_complete; rewrite Hb.
-        - destruct (len d =? 0); simpl; [eauto|]. destruct (negb _); simpl; [eauto|]. destruct (put _ _ _); simpl; eauto.
-        - destruct (len _ =? 0); simpl; [eauto|]. destruct (negb _); simpl; [eauto|]. destruct (put _ _ _); simpl; eauto.
-        - destruct (negb _); simpl; eauto. }
-      destruct (sink_step junk s0 op) as [s1 o1]. simpl in Hb1. specialize (IH s1 Hb1).
-      destruct (sink_run junk s1 ops) as [s2 os]. simpl in *. assumption. }
-    intros s0 E0.
-    assert (Hb0 : exists b, k_dev (sink_new_buffer junk app a) = DBuf b).
-    { unfold sink_new_buffer; destruct app; simpl; eauto. }
-    destruct (Hs _ Hb0 (map (fun d : list Z => SWrite d None) chunks)) as [b Hb].
-    congruence.
+  - exfalso.
+    assert (Hb0 : is_buf (sink_new_buffer junk app a)).
+    { unfold is_buf, sink_new_buffer; destruct app; simpl; eauto. }
+    destruct (sink_run_is_buf junk (map (fun d : list Z => SWrite d None) chunks) _ Hb0) as [b Hb].
+    rewrite Hb in E. discriminate.
 Qed.
 
 Theorem sink_chunking_file nm f chunks junk :
